@@ -156,11 +156,17 @@ def run(ck, model_ok):
                         key = 'new:' + key
                     ck.fail('oracle', key, case, 'spec_items', repr(got)[:600], viol[1])
     sl.NAME_SCHEME = 'plain'
+    # the same stream object walked again after a damaged file was repaired / the file list was edited (oracle: a fresh object)
+    import c19
+    c19.run_changing(ck)
     ck.notes += ['content on disk does not change during the iteration', 'plain path components; half of the cases list the files in an order that is not the path order']
 
 
 def replay(rp):
     c = rp['case']
+    if c.get('changing'):
+        import c19
+        return c19.replay_changing(c)
     sizes, L = tuple(c['sizes']), c['L']
     damage = {int(k): v for k, v in c['damage'].items()}
     sl.NAME_SCHEME = c.get('names', 'plain')
